@@ -380,6 +380,10 @@ func (p *Planner) newInvertableTypeJoin(
 		// we store child's own filter in case an index kicks in and replaces it with it's own filter
 		subFilter: getNode[*scanNode](childSide.plan).filter,
 	}
+	if parentScan := getNode[*scanNode](parentSide.plan); parentScan != nil {
+		// the same for the parent: when the join is inverted its documents are fetched through the relation
+		join.parentFilter = parentScan.filter
+	}
 
 	return join, nil
 }
@@ -495,6 +499,8 @@ type invertibleTypeJoin struct {
 
 	// the filter of the subnode to store in case it's replaced by an index filter
 	subFilter *mapper.Filter
+	// the filter of the parent's scan, to apply when the parents are fetched through the relation
+	parentFilter *mapper.Filter
 
 	secondaryFetchLimit uint
 
@@ -715,8 +721,13 @@ func (join *invertibleTypeJoin) Next() (bool, error) {
 	if firstSide.isPrimary() {
 		return join.fetchRelatedSecondaryDocWithChildren(firstSide.plan.Value())
 	} else {
+		// the primary documents keep the filter of their own scan
+		primaryFilter := join.subFilter
+		if join.parentSide.isPrimary() {
+			primaryFilter = join.parentFilter
+		}
 		primaryDocs, secondaryDoc, err := fetchPrimaryDocsReferencingSecondaryDoc(
-			join.getPrimarySide(), join.getSecondarySide(), firstSide.plan.Value(), join.subFilter)
+			join.getPrimarySide(), join.getSecondarySide(), firstSide.plan.Value(), primaryFilter)
 		if err != nil {
 			return false, err
 		}
